@@ -56,7 +56,7 @@ func (c *Ctx) loweredString(v ssa.Value) (bool, string) {
 			return false
 		}
 		sc := call.Call.StaticCallee()
-		return sc != nil && (sc.Name() == "ToLower" || sc.Name() == "ByteToLower")
+		return sc != nil && (engine.ShortName(sc) == "ToLower" || engine.ShortName(sc) == "ByteToLower")
 	}})
 	for _, o := range origins {
 		switch {
@@ -84,7 +84,7 @@ func parentNameRaw(v ssa.Value) string {
 	if v.Parent() == nil {
 		return "?"
 	}
-	return v.Parent().Name()
+	return engine.ShortName(v.Parent())
 }
 
 // loweredBytes: the slice is built by appending only ByteToLower results.
@@ -96,7 +96,7 @@ func loweredBytes(v ssa.Value) bool {
 			if _, isApp := engine.IsBuiltinCall(t, "append"); isApp {
 				return true
 			}
-			if sc := t.Call.StaticCallee(); sc != nil && sc.Name() == "ByteToLower" {
+			if sc := t.Call.StaticCallee(); sc != nil && engine.ShortName(sc) == "ByteToLower" {
 				any = true
 				return false
 			}
@@ -176,7 +176,7 @@ func c10(c *Ctx) {
 						cmp++
 						okB := false
 						if call, isCall := dyn.(*ssa.Call); isCall {
-							if sc := call.Call.StaticCallee(); sc != nil && sc.Name() == "ByteToLower" {
+							if sc := call.Call.StaticCallee(); sc != nil && engine.ShortName(sc) == "ByteToLower" {
 								okB = unicode.IsLower(rune(n))
 							}
 						}
@@ -198,7 +198,7 @@ func c10(c *Ctx) {
 					R.Check(ok, "R10.1", c.name(f)+"|lookup", P.Pos(t.Pos()), "table looked up with a lower-cased key", "a keyword table is indexed with text that is not lower-cased ("+bad+")")
 				case *ssa.Call:
 					sc := t.Call.StaticCallee()
-					if sc == nil || sc.Name() != "ConsumeBytes" || engine.RecvNamed(sc) == nil || engine.RecvNamed(sc).Obj().Name() != "Parser" {
+					if sc == nil || engine.ShortName(sc) != "ConsumeBytes" || engine.RecvNamed(sc) == nil || engine.RecvNamed(sc).Obj().Name() != "Parser" {
 						continue
 					}
 					cb++
@@ -244,7 +244,7 @@ func c10(c *Ctx) {
 			rd++
 			if cc.Method.Name() == "Read" {
 				// InputCollector.Read forwards a Read (io.Reader contract): allowed only as `return source.Read(p)`-style forward whose n is used
-				okFwd := top.Name() == "Read"
+				okFwd := engine.ShortName(top) == "Read"
 				R.Check(okFwd, "R10.4", c.name(f)+"|bare-Read", P.Pos(cs.Pos()), "Read only forwarded by the collector's own Read", "the scanner/collector calls Read directly: a short read (TCP segment boundary) could be taken for the full amount, making the parse depend on how the bytes were split")
 			} else {
 				R.Pass("R10.4", c.name(f)+"|"+cc.Method.Name(), P.Pos(cs.Pos()), "byte-wise / delimiter read")
@@ -328,7 +328,7 @@ func c10exhaust(c *Ctx) {
 					}
 				case *ssa.Call:
 					// explicit dispatch: UIDExpungeCommandParser{}.FromParser(p)
-					if sc := t.Call.StaticCallee(); sc != nil && sc.Name() == "FromParser" && engine.RecvNamed(sc) != nil {
+					if sc := t.Call.StaticCallee(); sc != nil && engine.ShortName(sc) == "FromParser" && engine.RecvNamed(sc) != nil {
 						registered[engine.RecvNamed(sc).Obj().Name()] = true
 					}
 				}
@@ -389,7 +389,7 @@ func c10uid(c *Ctx) {
 	payloadOf := func(builder string) []string {
 		var out []string
 		for _, m := range c.methodsOf("imap/command", builder) {
-			if m.Name() != "FromParser" {
+			if engine.ShortName(m) != "FromParser" {
 				continue
 			}
 			for _, f := range engine.WithClosures(m) {
